@@ -266,6 +266,38 @@ def tree_corrupt_option(sym, section, option, rule, maxlen, getter, k):
     sym.check("what-was-loaded-can-be-written", writable(ti))
 
 
+# spellings of the build timestamp a hand-edited or foreign .treeinfo may carry: everything float() accepts that is not a finite
+# number, numbers with exponents / fractions / blanks, and text that is no number at all (concrete pool: float parsing of arbitrary
+# symbolic text is not modelled)
+TIMESTAMP_LITERALS = ["nan", "NaN", "-nan", "inf", "-inf", "+Infinity", "infinity", "1e400", "-1e999", "abc", "12abc", "0x10", "1_000", "1,5", "--1", "1.5", "-2.75",
+                      "1e3", "1417653453.95", ".5", "5.", "١٢٣"]
+
+
+def tree_timestamp_literal(sym, k):
+    """[tree] build_timestamp is replaced by text that is not a plain integer: the load raises, or what it yields is a finite number
+    (an int or a float, as documented) and the loaded tree can be written"""
+    p = tree_parser(k)
+    v = sym.choice("literal", TIMESTAMP_LITERALS)
+    p.set("tree", "build_timestamp", v)
+    if p.has_option("general", "timestamp"):
+        p.set("general", "timestamp", v)
+    sym.cover("corrupted")
+    ti = productmd.treeinfo.TreeInfo()
+    try:
+        ti.loads(tree_text(p))
+        raised = False
+    except Exception:
+        raised = True
+    if raised:
+        sym.check("rejected-or-valid-after-load", True)
+        return
+    sym.cover("accepted-after-normalisation")
+    t = ti.tree.build_timestamp
+    finite = isinstance(t, (int, float)) and not isinstance(t, bool) and t == t and t not in (float("inf"), float("-inf"))
+    sym.check("rejected-or-valid-after-load", finite)
+    sym.check("what-was-loaded-can-be-written", writable(ti))
+
+
 def tree_platforms(sym, k):
     """[tree] platforms takes any selection of platform names: a document with an [images-P] section whose P is not listed is
     rejected (the tree's own arch is no exception)"""
@@ -452,6 +484,7 @@ def jobs(tier, seed):
             ("addon-Server-HA", "id", "tree-variant-id", 6, ["variants", "[Server]", "variants", "[HA]", "id"])]:
         out.append({"harness": "tree_corrupt_option", "params": {"section": section, "option": option, "rule": rule, "maxlen": maxlen, "getter": getter, "k": k}})
     out.append({"harness": "tree_platforms", "params": {"k": k}})
+    out.append({"harness": "tree_timestamp_literal", "params": {"k": k}})
     for child in sorted(CHILD_SECTIONS):
         out.append({"harness": "tree_child_misaligned", "params": {"child": child, "k": k}})
     out.append({"harness": "tree_header", "params": {"k": k}})
@@ -466,7 +499,7 @@ def jobs(tier, seed):
 
 META = {
     "expected_covers": {"variant_arches": ["corrupted"], "corrupt_leaf": ["corrupted"], "header_type": ["loaded"], "header_version": ["loaded"], "delete_key": ["loaded"],
-                        "images_identity_collision": ["loaded"], "tree_corrupt_option": ["corrupted"], "tree_child_misaligned": ["corrupted"], "tree_platforms": ["corrupted"], "tree_header": ["loaded"], "tree_version": ["loaded"], "tree_delete": ["loaded"]},
+                        "images_identity_collision": ["loaded"], "tree_corrupt_option": ["corrupted"], "tree_child_misaligned": ["corrupted"], "tree_platforms": ["corrupted"], "tree_timestamp_literal": ["corrupted", "accepted-after-normalisation"], "tree_header": ["loaded"], "tree_version": ["loaded"], "tree_delete": ["loaded"]},
     "assumptions": [
         "documents reach the reader through loads(text), load(path) on the symbolic file system, or load('http://...') answered by the urlopen model (rotating per job)",
         "base documents are produced by the real writer from valid objects (nested/layered-product variants, three images, one payload entry); one corruption at a time",
@@ -476,5 +509,7 @@ META = {
         "treeinfo documents: the written base tree is parsed into a parser object, one option is replaced / removed, the text is written again and loaded; "
         "values printable ASCII without leading/trailing blank; sections with a documented legacy fall-back (header, [tree]) are not 'required'",
         "JSON text layer replaced by the DocText stub",
+        "tree_timestamp_literal: the build timestamp takes each of %d concrete spellings (non-finite, exponent, fraction, non-numeric, non-ASCII digits); "
+        "ordinary execution of concrete inputs, not a solver decision" % len(TIMESTAMP_LITERALS),
     ],
 }
